@@ -304,6 +304,9 @@ def c05_run(ctx):
     if not ctx.violations:
         n = 24 if ctx.tier == "quick" else 300
         ctx.trace_validate("relay", "TestRelayTrace", "TraceRelay.tla", "TraceRelay.cfg", n)
+    if not ctx.violations:   # the client's choice of encapsulation under refusals, stale nonces and silence: what a WriteTo reported as sent reached the wire in a form the server relays
+        ctx.trace_validate("clientconn", "TestClientConnTrace", "TraceClientConn.tla", "TraceClientConn.cfg", 20 if ctx.tier == "quick" else 300,
+                           attribute=clientconn_attribute)
     if not ctx.violations:   # parallel writers on the relayed socket (real time): what reaches the wire is what was written
         ctx.trace_validate("clientconn-rt", "TestClientConnRT", "TraceClientConn.tla", "TraceClientConnRT.cfg", 2 if ctx.tier == "quick" else 20,
                            attribute=clientconn_attribute)
